@@ -12,7 +12,7 @@ from fractions import Fraction
 from itertools import product
 
 from .. import impl, progcheck
-from ..common import enc, pmap, permuted, short
+from ..common import enc, pmap, permuted, quiet, short
 from ..enum import weights as ew
 from ..ref import parse as rp
 from ..ref import sem
@@ -24,6 +24,8 @@ RULE = ("states = (unit id, weight vector / return statement) observations of th
         "pairwise monotonicity on ramps")  # fmt: skip
 
 G = Fraction(1, 1 << 32)
+_EV = None
+_TOGGLE = [0]
 
 
 def interval(ws, g):
@@ -46,7 +48,22 @@ def observe(acc, v, ids, labels=None, salt=None):
     ast = ("prog", "e", salt, ("uid",), ("ret", tuple(zip(labels, v))))
     text = rp.render(ast)
     acc.add("programs")
-    b = impl.build(text)
+    # the same evaluator object is RECOMPILED from vector to vector (like a service polling its configuration);
+    # every other observation uses a fresh evaluator, so both ways of getting there are covered
+    global _EV
+    _TOGGLE[0] += 1
+    b = None
+    if _EV is not None and _TOGGLE[0] % 2:
+        try:
+            with quiet():
+                _EV.recompile(str(text))
+            b = ("ok", _EV)
+        except Exception:  # noqa
+            b = None
+    if b is None:
+        b = impl.build(text)
+        if b[0] == "ok":
+            _EV = b[1]
     if b[0] != "ok":
         acc.violation({"kind": "pos:build", "sub": "build", "text": text, "observed": list(b)})
         return None
